@@ -26,21 +26,28 @@ NWORKERS = int(os.environ.get("VERIF_WORKERS", "16"))
 
 # property -> configuration of its check
 #   scenario / flavours / runs per tier / which probes make a run "non-trivial"
+def Z(profile, flav="asan", w=1, scen="zoo", mode="batch"):
+    return dict(scen=scen, profile=profile, flav=flav, w=w, mode=mode)
+
+
 PROPS = {
-    "C01": dict(scen="zoo", flav=["asan"], quick=24000, thorough=1200000,
-                nontrivial=["unreg_in_cb"], level="exploration"),
-    "C02": dict(scen="zoo", flav=["asan"], quick=24000, thorough=1200000,
-                nontrivial=["fd_cb", "block"], level="exploration"),
-    "C03": dict(scen="zoo", flav=["asan"], quick=24000, thorough=1200000,
-                nontrivial=["fd_cb"], level="exploration"),
-    "C04": dict(scen="zoo", flav=["asan"], quick=24000, thorough=1200000,
-                nontrivial=["timer_fired", "block"], level="exploration"),
-    "C06": dict(scen="zoo", flav=["asan"], quick=24000, thorough=1200000,
-                nontrivial=["task_ran"], level="exploration"),
-    "C07": dict(scen="zoo", flav=["asan"], quick=24000, thorough=1200000,
-                nontrivial=["block"], level="exploration"),
-    "C18": dict(scen="zoo", flav=["asan"], quick=24000, thorough=1200000,
-                nontrivial=["cycles"], level="exploration"),
+    "C01": dict(parts=[Z("C01", w=4), Z("C10", scen="sig"), Z("C11", scen="wait")], quick=24000, thorough=1200000, nontrivial=["unreg_in_cb"], level="exploration"),
+    "C02": dict(parts=[Z("C02")], quick=24000, thorough=1200000, nontrivial=["fd_cb", "block"], level="exploration"),
+    "C03": dict(parts=[Z("C03")], quick=24000, thorough=1200000, nontrivial=["fd_cb"], level="exploration"),
+    "C04": dict(parts=[Z("C04")], quick=24000, thorough=1200000, nontrivial=["timer_fired", "block"], level="exploration"),
+    "C06": dict(parts=[Z("C06")], quick=24000, thorough=1200000, nontrivial=["task_ran"], level="exploration"),
+    "C07": dict(parts=[Z("C07", w=4), Z("C13", scen="pool"), Z("C19", scen="popen")], quick=24000, thorough=1200000, nontrivial=["block"], level="exploration"),
+    "C08": dict(parts=[Z("C08")], quick=20000, thorough=1000000, nontrivial=["post_cross", "event_cb"], level="exploration"),
+    "C09": dict(parts=[Z("C09")], quick=20000, thorough=1000000, nontrivial=["raw_cb"], level="exploration"),
+    "C10": dict(parts=[Z("C10", scen="sig")], quick=20000, thorough=1000000, nontrivial=["sig_cb"], level="exploration"),
+    "C11": dict(parts=[Z("C11", scen="wait")], quick=20000, thorough=1000000, nontrivial=["wait_cb"], level="exploration"),
+    "C12": dict(parts=[Z("C12", scen="pool")], quick=12000, thorough=600000, nontrivial=["work_done"], level="exploration"),
+    "C13": dict(parts=[Z("C13", scen="pool")], quick=12000, thorough=600000, nontrivial=["work_done"], level="exploration"),
+    "C19": dict(parts=[Z("C19", scen="popen")], quick=20000, thorough=1000000, nontrivial=["popen_kill"], level="exploration"),
+    "C14": dict(parts=[Z("C08", "tsan"), Z("C09", "tsan"), Z("C18", "tsan")], quick=9000, thorough=400000,
+                nontrivial=["post_cross"], level="exploration"),
+    "C15": dict(parts=[Z("C15", mode="enum")], quick=260, thorough=12000, nontrivial=["block"], level="fault_enumeration"),
+    "C18": dict(parts=[Z("C18", w=4), Z("C13", scen="pool"), Z("C10", scen="sig"), Z("C11", scen="wait"), Z("C19", scen="popen")], quick=24000, thorough=1200000, nontrivial=["cycles"], level="exploration"),
 }
 
 ASSUMPTIONS = [
@@ -206,9 +213,10 @@ def minimise(exe, cand, prop, target, outdir, budget=600):
     sched = [l for l in lines if l.startswith("sched")]
     tries = [0]
     tmp = os.path.join(outdir, "min.plan")
+    tstart = time.time()
 
     def test(fx, op, sc):
-        if tries[0] >= budget:
+        if tries[0] >= budget or time.time() - tstart > 90:
             return False
         tries[0] += 1
         with open(tmp, "w") as f:
@@ -285,7 +293,7 @@ def handle_violations(agg, exes, outdir, prop, tier):
         seen[sig] = 1
         exe = exes[flavour]
         suffix = ""
-        cands = [n for n in os.listdir(outdir) if n.startswith("cand-%s-%d" % (prop, r["seed"]))]
+        cands = [n for n in os.listdir(outdir) if n.startswith("cand-%s-%d" % (r["part"]["profile"], r["seed"]))]
         if r["variant"] and r["variant"] != "base":
             pass
         cand = None
@@ -302,7 +310,10 @@ def handle_violations(agg, exes, outdir, prop, tier):
             nknown += 1
             print("KNOWN-FINDING: property=%s %s (%s) seed=%d" % (prop, known[0].get("what", vid), vid, r["seed"]))
             continue
-        mini, tries = minimise(exe, cand, prop, vid, outdir)
+        if vid == "ANY.hang":
+            mini, tries = None, 0       # every execution costs a watchdog period: report the recorded plan as it is
+        else:
+            mini, tries = minimise(exe, cand, prop, vid, outdir)
         if mini is None:
             mini = cand
         final = os.path.join(VERIF, "replays", "%s-%s-%d%s.plan" % (prop, vid.replace(".", "_"), r["seed"], suffix))
@@ -345,24 +356,27 @@ def check(prop, tier_name):
     tier = 1 if tier_name == "thorough" else 0
     base = int(os.environ.get("VERIF_SEED", "1"))
     t0 = time.time()
-    exes = {fl: ivbuild.build(fl) for fl in cfg["flav"]}
+    flavs = sorted(set(p["flav"] for p in cfg["parts"]))
+    exes = {fl: ivbuild.build(fl) for fl in flavs}
     total = cfg["thorough" if tier else "quick"]
     total = int(os.environ.get("VERIF_RUNS", total))
     seconds = float(os.environ.get("VERIF_SECONDS", cfg.get("thorough_s", 780) if tier else cfg.get("quick_s", 50)))
     outdir = tempfile.mkdtemp(prefix="ivsim-%s-" % prop, dir=os.environ.get("TMPDIR", "/dev/shm"))
     agg = Agg(prop, cfg)
-    mode = cfg.get("mode", "batch")
     machinery = 0
     try:
-        for fi, fl in enumerate(cfg["flav"]):
-            env = dict(os.environ)
+        wsum = sum(p["w"] for p in cfg["parts"])
+        for fi, part in enumerate(cfg["parts"]):
+            fl = part["flav"]
             if fl == "tsan":
-                env["TSAN_OPTIONS"] = "log_path=%s/tsan suppressions=%s/sim/tsan.supp" % (outdir, VERIF)
-                os.environ["TSAN_OPTIONS"] = env["TSAN_OPTIONS"]
-            share = total if len(cfg["flav"]) == 1 else (total // len(cfg["flav"]))
-            for line in run_workers(exes[fl], mode, cfg["scen"], prop, tier, base + 1000003 * fi, share, outdir, seconds / len(cfg["flav"])):
+                os.environ["TSAN_OPTIONS"] = "log_path=%s/tsan suppressions=%s/sim/tsan.supp" % (outdir, VERIF)
+            share = max(1, total * part["w"] // wsum)
+            for line in run_workers(exes[fl], part["mode"], part["scen"], part["profile"], tier, base + 1000003 * fi, share, outdir,
+                                    seconds * part["w"] / wsum):
                 if line.startswith("RUN "):
-                    agg.add(fl, parse_run_line(line))
+                    r = parse_run_line(line)
+                    r["part"] = part
+                    agg.add(fl, r)
                 elif line.startswith("ENUM "):
                     f = parse_fields(line)
                     agg.enum_bases += 1
@@ -396,18 +410,20 @@ def evidence(prop, tier_name, base, cfg, agg, wall, nviol, exes):
     samples = []
     for tag, r in (("plain", agg.sample_plain), ("with_faults", agg.sample_fault), ("most_context_switches", agg.sample_sw)):
         if r is not None:
-            samples.append(dict(kind=tag, seed=r["seed"], variant=r["variant"], result=r["R"], probes=r["probes"],
-                                plan=sample_plan(exe, cfg["scen"], prop, r["seed"], tier)))
+            samples.append(dict(kind=tag, seed=r["seed"], variant=r["variant"], scenario=r["part"]["scen"], profile=r["part"]["profile"],
+                                flavour=r["part"]["flav"], result=r["R"], probes=r["probes"],
+                                plan=sample_plan(exes[r["part"]["flav"]], r["part"]["scen"], r["part"]["profile"], r["seed"], tier)))
     if not samples:
         samples = ["no run completed"]
     unreached = [p for p in cfg.get("expect_probes", []) if agg.probes.get(p, 0) == 0]
     cov = dict(
         evaluations=agg.runs,
         distinct_nontrivial=len(agg.nontrivial_hashes),
-        rule="one evaluation = one simulated run of a seeded plan (scenario '%s', generator profile %s) executed against the real library "
+        rule="one evaluation = one simulated run of a seeded plan (scenario/profile/flavour parts: %s) executed against the real library "
              "under the simulator; distinct = distinct 64-bit hashes of the complete event log (scheduler decisions, waits, clock reads, "
              "API calls, callbacks, faults); non-trivial = the run fired all of these probes at least once: %s"
-             % (cfg["scen"], prop, ", ".join(cfg["nontrivial"])),
+             % ("; ".join("%s/%s/%s%s" % (p["scen"], p["profile"], p["flav"], "/enum" if p["mode"] == "enum" else "") for p in cfg["parts"]),
+                ", ".join(cfg["nontrivial"])),
         samples=samples,
         distinct_event_logs=len(agg.hashes),
         distinct_interleavings=len(agg.sched_hashes),
@@ -417,7 +433,7 @@ def evidence(prop, tier_name, base, cfg, agg, wall, nviol, exes):
         steps=agg.steps,
         context_switches=agg.switches,
         runs_per_hour=int(agg.runs / max(wall, 0.001) * 3600),
-        seeds="mix(VERIF_SEED=%d, '%s', i) for i in 0..%d" % (base, prop, agg.runs - 1),
+        seeds="run i of part k uses mix(VERIF_SEED=%d + 1000003*k, profile, i)" % base,
         faults_fired=agg.faults,
         fault_site_names={"1": "wait EINTR", "2": "epoll_pwait2 ENOSYS/EPERM", "3": "ppoll ENOSYS", "4": "epoll_create1 ENOSYS",
                           "5": "epoll_create ENOSYS", "6": "timerfd_create ENOSYS", "7": "eventfd2 EINVAL/ENOSYS/EMFILE",
@@ -430,7 +446,7 @@ def evidence(prop, tier_name, base, cfg, agg, wall, nviol, exes):
         unreached_probes=unreached,
         other_property_oracles_seen=agg.notes,
         components=COMPONENTS,
-        flavours=cfg["flav"],
+        flavours=sorted(set(p["flav"] for p in cfg["parts"])),
     )
     if agg.enum_bases:
         cov["enumerated_base_plans"] = agg.enum_bases
@@ -469,8 +485,14 @@ def selftest_determinism(n):
     bad = 0
     outdir = tempfile.mkdtemp(prefix="ivsim-det-", dir=os.environ.get("TMPDIR", "/dev/shm"))
     try:
+        done = set()
         for prop, cfg in sorted(PROPS.items()):
-            for fl in cfg["flav"]:
+            for part in cfg["parts"]:
+                key = (part["scen"], part["profile"], part["flav"])
+                if key in done or part["mode"] != "batch":
+                    continue
+                done.add(key)
+                fl = part["flav"]
                 exe = ivbuild.build(fl)
                 if fl == "tsan":
                     os.environ["TSAN_OPTIONS"] = "log_path=%s/tsan suppressions=%s/sim/tsan.supp" % (outdir, VERIF)
@@ -480,14 +502,14 @@ def selftest_determinism(n):
                     save = NWORKERS
                     NWORKERS = nw
                     m = {}
-                    for line in run_workers(exe, "batch", cfg["scen"], prop, 0, 424242, n, outdir, 600):
+                    for line in run_workers(exe, "batch", part["scen"], part["profile"], 0, 424242, n, outdir, 600):
                         if line.startswith("RUN "):
                             r = parse_run_line(line)
                             m[r["seed"]] = (r["R"].get("hash"), r["R"].get("shash"), r["R"].get("status"))
                     NWORKERS = save
                     maps.append(m)
                 diff = [s for s in maps[0] if maps[0][s] != maps[1].get(s)]
-                print("determinism %s/%s: %d seeds x 2 executions (16 and 5 workers), %d mismatches" % (prop, fl, len(maps[0]), len(diff)))
+                print("determinism %s/%s/%s: %d seeds x 2 executions (16 and 5 workers), %d mismatches" % (key + (len(maps[0]), len(diff))))
                 for s in diff[:5]:
                     print("   seed %d: %s vs %s" % (s, maps[0][s], maps[1].get(s)))
                 bad += len(diff)
